@@ -39,17 +39,19 @@ pub fn run(r: &mut Report) {
         r.case("summary-first-materials-last-products", json!({"steps": ["a","b"]}), "name top, materials [m], products [y]",
                match &res { Ok(v) => format!("{} {}", summary_name(v), verdict(v)), Err(p) => format!("panic: {}", p) }, ok);
     }
-    // every field of the summary: materials of the FIRST step, products / byproducts / command of the LAST step (3 steps, all different)
-    {
+    // every field of the summary: materials of the FIRST step, products / byproducts / command of the LAST step (3 steps, all different),
+    // for step names in and out of alphabetical order ("first" and "last" are positions in the layout, not in the alphabet)
+    for names in [["a", "b", "c"], ["zeta", "mid", "alpha"], ["b", "c", "a"], ["2", "10", "1"]] {
         use in_toto::models::{byproducts::ByProducts, LinkMetadataBuilder};
         let d = tmpdir();
         let mk = |name: &str, m: (&str, u8), p: (&str, u8), c: &str, out: &str| LinkMetadataBuilder::new().name(name.to_string())
             .materials(artifacts(&[m])).products(artifacts(&[p])).command(cmd(&[c, name]))
             .byproducts(ByProducts::new().set_stdout(out.to_string()).set_stderr(String::new()).set_return_value(0)).build().unwrap();
-        write_link(d.path(), "a", ka.key_id(), &signed_link(&mk("a", ("m", 1), ("x", 2), "fetch", "out-a"), &[&ka]));
-        write_link(d.path(), "b", kb.key_id(), &signed_link(&mk("b", ("x", 2), ("y", 3), "build", "out-b"), &[&kb]));
-        write_link(d.path(), "c", kc.key_id(), &signed_link(&mk("c", ("y", 3), ("z", 4), "pack", "out-c"), &[&kc]));
-        let l = layout(vec![step("a", 1, &[&ka], allow_all(), allow_all()), step("b", 1, &[&kb], allow_all(), allow_all()), step("c", 1, &[&kc], allow_all(), allow_all())], vec![], &[&ka, &kb, &kc], 30);
+        let (n0, n1, n2) = (names[0], names[1], names[2]);
+        write_link(d.path(), n0, ka.key_id(), &signed_link(&mk(n0, ("m", 1), ("x", 2), "fetch", "out-first"), &[&ka]));
+        write_link(d.path(), n1, kb.key_id(), &signed_link(&mk(n1, ("x", 2), ("y", 3), "build", "out-middle"), &[&kb]));
+        write_link(d.path(), n2, kc.key_id(), &signed_link(&mk(n2, ("y", 3), ("z", 4), "pack", "out-last"), &[&kc]));
+        let l = layout(vec![step(n0, 1, &[&ka], allow_all(), allow_all()), step(n1, 1, &[&kb], allow_all(), allow_all()), step(n2, 1, &[&kc], allow_all(), allow_all())], vec![], &[&ka, &kb, &kc], 30);
         let lay = signed_layout(&l, &[&owner]);
         let res = no_panic(|| in_toto_verify(&lay, owner_keys(&[&owner]), d.path().to_str().unwrap(), Some("top")));
         let obs = match &res {
@@ -57,8 +59,8 @@ pub fn run(r: &mut Report) {
                 l.materials.keys().map(|k| k.value().to_string()).collect::<Vec<_>>(), l.products.keys().map(|k| k.value().to_string()).collect::<Vec<_>>(),
                 l.command, l.byproducts.stdout()), _ => "Ok(layout)".into() },
             Ok(Err(e)) => format!("Err({})", e), Err(p) => format!("panic: {}", p) };
-        let exp = format!("name=top materials=[\"m\"] products=[\"z\"] command={:?} stdout={:?}", cmd(&["pack", "c"]), Some("out-c".to_string()));
-        r.case("summary-all-fields-three-steps", json!({"steps": ["a","b","c"]}), &exp, obs.clone(), obs == exp);
+        let exp = format!("name=top materials=[\"m\"] products=[\"z\"] command={:?} stdout={:?}", cmd(&["pack", n2]), Some("out-last".to_string()));
+        r.case("summary-all-fields-three-steps", json!({"steps": names}), &exp, obs.clone(), obs == exp);
     }
     // delegation: step "a" of the parent is satisfied by a sub-layout signed by ka, with inner links in <dir>/a.<prefix(ka)>/
     #[derive(Clone, Copy, Debug)]
